@@ -173,3 +173,24 @@ Fixpoint reach (fuel : nat) (g : graph) (n target : nat) : bool :=
 Definition cyclic_ref (g : graph) : bool := existsb (fun n => reach (length g) g n n) (map fst g).
 Definition dfs_says_cycle (g : graph) : bool := match has_cycle g with Cycle => true | _ => false end.
 Definition dfs_in_fuel (g : graph) : bool := match has_cycle g with DfsFuel => false | _ => true end.
+
+(* ------------------------------------------------------------------ item definitions are trees: a type reference may sit in a component of a component ...
+   check_cyclic_dependencies collects the references of the WHOLE tree of an item definition (collect_type_references, recursive) *)
+Inductive itemdef := ItemDef (name : nat) (type_ref : option nat) (components : list itemdef).
+Definition item_name (t : itemdef) : nat := match t with ItemDef n _ _ => n end.
+Definition own_ref (t : itemdef) : list nat := match t with ItemDef _ (Some x) _ => [x] | _ => [] end.
+Fixpoint collect_refs (t : itemdef) : list nat :=
+  match t with ItemDef _ r cs => (match r with Some x => [x] | None => [] end) ++ flat_map collect_refs cs end.
+(* a flat variant (the definition and its direct components only) — NOT what the code does; kept to state what it would miss *)
+Definition flat_refs (t : itemdef) : list nat :=
+  match t with ItemDef _ r cs => (match r with Some x => [x] | None => [] end) ++ flat_map own_ref cs end.
+Definition item_graph (defs : list itemdef) : graph := map (fun t => (item_name t, collect_refs t)) defs.
+
+(* x is the type reference of the definition or of a component at any depth *)
+Inductive occurs (x : nat) : itemdef -> Prop :=
+| occ_here : forall n cs, occurs x (ItemDef n (Some x) cs)
+| occ_deep : forall n r cs c, In c cs -> occurs x c -> occurs x (ItemDef n r cs).
+
+(* a chain of components of the given depth whose innermost component refers to x *)
+Fixpoint nested (depth : nat) (x : nat) : itemdef :=
+  match depth with O => ItemDef 0 (Some x) [] | S d => ItemDef 0 None [nested d x; ItemDef 0 (Some 99) []] end.
